@@ -1,4 +1,34 @@
 TEXT = {
+ 'C11': {
+  'text': 'Lean 4 theorems on the model of the key tree + flat index exactly as coded: a refused registration/change leaves the state equal; '
+          'a registration whose name, (slot,offset) and (slot,offset,type) are new is reachable through BOTH lookups at the same fresh node; an '
+          'accepted change modifies exactly the node the slot lookup returns with the append-unless-repeat law; child names are exactly those '
+          'registered. The full property is kept as c11_full and its NEGATION is proved (three-operation witnesses for each conflict class): '
+          'known finding D14. Every run replays random histories over a small alphabet through the exported API, compares every accessor with '
+          'the model, and probes each accepted registration (S both-see): non-conflicting ones must be seen by both lookups.',
+  'note': 'Partial: history-level agreement is proved one step at a time (fresh registration, change), not as a global invariant; the conflict '
+          'classes (same name/other key, shared slot+offset/other type, same key/other path, child of a conflicted parent) are reported as '
+          'KNOWN-FINDING D14, any other disagreement is a violation.',
+  'technique': 'Lean 4 one-step theorems + proved negation witnesses + op-sequence correspondence with per-registration probes',
+ },
+ 'C10': {
+  'text': 'Lean 4 theorems (tracer part): a change is filed under the call-tree cursor (innermost open node, 0 at rest) and the account '
+          'passed in; it modifies exactly one key node, leaving every other node, the flat index and the roots untouched; the list of a record '
+          'per call is the chronological sequence with immediate repeats collapsed (c10_list_is_collapsed_history), other calls\' lists '
+          'untouched, nothing removed. Tied by op-sequence correspondence on the exported tracer API (repeated and alternating values, calls '
+          'opened and closed in between) and by journal opcodes run in real frames.',
+  'note': 'Partial: which account the opcodes pass in DELEGATECALL/CALLCODE/CREATE frames and that the cursor is the innermost CALL/CREATE '
+          'frame are frame-layer facts, checked by correspondence where the frame layer is present.',
+  'technique': 'Lean 4 proof of the list law by induction over journaled values + op-sequence correspondence',
+ },
+ 'C13': {
+  'text': 'Lean 4 theorems (tracer part): TransferWithRecord files before-from, before-to, after-from, after-to in that order under the '
+          'cursor index, each touching only the root record of that account with the append-unless-repeat law (so self-transfers and zero '
+          'values collapse as stated); roots stay roots. The correspondence performs real transfers on a real StateDB through the exported '
+          'TransferWithRecord, reads the true balances before and after independently, and compares the Balance() records with the model.',
+  'note': 'Partial: that Call/create perform exactly one TransferWithRecord per frame that reaches the transfer is a frame-layer fact.',
+  'technique': 'Lean 4 proof of order/index/list law + correspondence with independently observed balances',
+ },
  'C15': {
   'text': 'Lean 4 theorems over mcopyStep (one interpreter step on MCOPY with exact uint64 arithmetic): whenever the step succeeds, for EVERY '
           '(dst, src, len) the new memory size is EIP-5656\'s, every byte is the overlap-safe memmove of the zero-extended old memory, the cost '
